@@ -492,11 +492,21 @@ def _is_str_method(recv: ast.AST) -> bool:
 def rule_tolerant(ctx: Ctx) -> RuleResult:
     res = RuleResult("R-TOLERANT")
     f = ctx.p.function("spil.sid.pathops.getter_paths.GetFromPaths.get_data")
-    reads = [n for n in own_nodes(f.node) if isinstance(n, ast.Call) and (dotted(n.func) in ("json.load", "json.loads", "open", "builtins.open") or (
-        isinstance(n.func, ast.Attribute) and n.func.attr in ("open", "read_text", "read_bytes")))]
-    res.floor(len(reads), 2, "sidecar read operations in get_data")
-    for r in reads:
-        missing = [e for e in ("OSError", "JSONDecodeError", "UnicodeDecodeError") if not ctx.ef.caught_locally(f, r, e)]
+
+    def read_ops(g):
+        return [n for n in own_nodes(g.node) if isinstance(n, ast.Call) and (dotted(n.func) in ("json.load", "json.loads", "open", "builtins.open") or (
+            isinstance(n.func, ast.Attribute) and n.func.attr in ("open", "read_text", "read_bytes")))]
+
+    reads = [(f, r, None) for r in read_ops(f)]
+    # reads moved into a helper of the same module: the handler may sit in the helper or around the call
+    for cs in ctx.cg.sites.get(f.qualname, []):
+        for t in cs.targets:
+            if t.module is f.module and t is not f and isinstance(cs.node, ast.Call):
+                reads += [(t, r, cs.node) for r in read_ops(t)]
+    res.floor(len(reads), 2, "sidecar read operations reachable from get_data")
+    for g, r, via in reads:
+        missing = [e for e in ("OSError", "JSONDecodeError", "UnicodeDecodeError") if not (
+            ctx.ef.caught_locally(g, r, e) or (via is not None and ctx.ef.caught_locally(f, via, e)))]
         if missing:
             res.violation([f.qualname, norm(r.func), ",".join(missing)],
                           f"get_data: `{norm(r)[:50]}` can raise {missing} (sidecar made a directory, unreadable, truncated, not utf-8) and no "
